@@ -117,6 +117,18 @@ E('C28', 'Table contents x require x col_values x options x bulk length <= 2 for
 E('C39', 'Choice/ChoiceList contents x saved filters x rename maps (swap, chain, merge, identity, unused, '
          "''->z): simultaneous substitution on cells and that column's filters, nothing else changes.")
 
+H('C06', 'For every (state, bundle) and for the full recalculation of every base document and of all '
+         'cyclic 2-/3-column documents: the run is repeated under every schedule that deviates from '
+         'the default work-list order at one call of _make_sorted_work_items (all permutations of the '
+         'dirty nodes up to 4/6 per class, lookups kept first); dump and multiset of stored actions '
+         'must be identical, no schedule may raise.',
+  tech='stateless schedule enumeration (CHESS-style, deviation-bounded) of the engine work list')
+H('C18', 'Every dependency graph over 3 (quick) / 4 (thorough) formula columns x {in-row, through a '
+         'self-reference to the other row}: terminates, cells on a cycle hold CircularRefError, cells '
+         'not involved get the value of an independent evaluator; after initial calculation, after an '
+         'edit and after a from-scratch reload.',
+  tech='exhaustive enumeration of all dependency graphs on the real engine; graph-theoretic oracle')
+
 PLANNED = {}
 
 
